@@ -41,7 +41,7 @@ func DocJSON(i int, variant int) string {
 	case 1:
 		base += `,"nil":null,"e":{},"ea":[],"metas":[{},{"a":1},{}]`
 	case 2:
-		base += `,"deep":{"one":{"k":"d` + fmt.Sprint(i) + `"}},"flag":true`
+		base += `,"deep":{"one":{"k":"d` + fmt.Sprint(i) + `"}},"flag":true,"matrix":[[` + fmt.Sprint(i) + `,2],[3,4,5],[]]`
 	}
 	return base + "}"
 }
@@ -81,6 +81,8 @@ func lit(s ...string) []func() string {
 // Str returns a string-valued expression.
 func (g *Gen) Str(d int) string {
 	leaves := lit(`name`, `nest.c`, `txt`, `one.k`, `items[0].p`, `s[1]`, `"lit"`, `"a z b"`,
+		// Go structs in typed documents (undefined elsewhere)
+		`rec.P`, `rec.Sub.P`, `val.P`, `recs[1].P`, `rec.In.c`, `$string(rec.Q)`, `rec.Tags[0]`, `$join(recs.P, "-")`,
 		`name.$uppercase()`, `nest.c.$substringAfter("X")`, `name.$substringBefore("z")`,
 		`name.$pad(8,"-")`, `name.$substring(1,2)`, `txt.$trim()`, `n.$string()`, `name.$lowercase()`,
 		`n.$formatNumber("000")`, `n.$formatBase(2)`, `n.$type()`, `one.$lookup("k")`, `id.$fromMillis()`,
@@ -263,6 +265,8 @@ func (g *Gen) ArrN(d int) string {
 		// `windows` holds two sub-slices of `nums` (array of arrays over one backing array)
 		`windows.*`, `$.windows.*`, `[windows].*`, `windows[0]`, `$append(windows[0], windows[1])`, `$reverse(windows).*`,
 		// one step yielding several of the document's arrays
+		`recs.Q`, `[rec.Q, val.Q]`, `recs^(Q).Q`, `$map(recs, function($r){$r.Q * 2})`, `rec.**.Q`,
+		`matrix[0]`, `matrix[1]`, `matrix.$`, `$append(matrix[0], matrix[1])`, `$reverse(matrix)[0]`, `matrix[1][0]`, `$map(matrix, $count)`, `$zip(matrix[0], matrix[1]).$sum($)`,
 		`groups.rows`, `$.groups.rows`, `groups[g = "a"].rows`, `groups.rows[0]`, `groups.rows^(>$)`, `groups.(rows)`,
 		`groups.rows[$ > 1]`, `$append(groups.rows, 1)`, `$reverse(groups).rows`, `groups^(>g).rows`, `groups.$count(rows)`,
 		`$map(groups, function($x){$x.rows}).*`, `groups.tags.$length()`)
@@ -298,6 +302,8 @@ func (g *Gen) ArrS(d int) string {
 		`items.p.$substringAfter("z")`, `items.(p.$uppercase())`, `items[q > $$.id].p.$lowercase()`,
 		`$keys(one)`, `one.$keys()`, `one.$each(function($v,$k){$k & $v})`, `name.$split("z")`,
 		`items.p.$pad($$.n.$string().$length() + 8)`, `name.$match(/[a-z]/).match`,
+		`recs.P`, `rec.Tags`, `recs^(>Q).P`, `$keys(rec)`, `recs.Tags`, `$sort(recs, function($a,$b){$a.Q < $b.Q}).P`, `$reverse(recs).P`,
+		`$append(rec.Tags, "c")`, `recs[Q > 0].P`, `$each(rec, function($v,$k){$k})`, `$reverse(rec.Tags)`, `$sort(rec.Tags)`,
 		`groups.tags`, `groups.g`, `groups[g = "a"].tags`, `groups.tags^(<$)`, `$append(groups.tags, "z")`, `groups.(tags)`)
 	nodes := []func(d int) string{
 		func(d int) string { return `$split(` + g.Str(d) + `, ` + g.pick(`"z"`, `/z/`, `" "`) + `)` },
@@ -391,6 +397,9 @@ func (g *Gen) Transform(d int) string {
 		`e ~> |$|{"x": name}|`,
 		`$ ~> |metas[0]|{"m": $$.n}, "a"|`,
 		`$ ~> |one|{"x": 1}| ~> |one|{"y": x + 1}|`,
+		`$ ~> |rec|{"Z": 1}|`, `rec ~> |$|{"P": "w"}|`, `$ ~> |recs|{"Q": 0}, "P"|`, `$ ~> |rec.In|{"c": "w"}|`, `$ ~> |rec.Sub|{"P": "w"}|`,
+		`$ ~> |val|{"P": "w"}|`, `rec ~> |In|{"c": "w"}, "k"|`, `$ ~> |recs|{"Tags": $append(Tags, "z")}|`, `$merge([rec, {"z": 1}])`, `$sift(rec, function($v,$k){$k = "P"})`,
+		`$ ~> |$|{"m0": matrix[0]}| ~> |$|{"m0": $append(m0, 9)}|`,
 		`$ ~> |groups|{"n": $count(rows)}|`,
 		`$ ~> |groups|{"rows": $append(rows, 0)}, "tags"|`,
 		`groups ~> |$|{"first": rows[0]}, ["tags"]|`,
@@ -423,7 +432,7 @@ func (g *Gen) TransformOutside() string {
 	}
 	if g.R.Chance(2, 3) {
 		// selector of a node outside the copy, reached in various syntactic ways
-		sel := g.pick(`$$.one`, `$$.nest`, `$$.items`, `$$.items[0]`, `$v`, `$$.e`, `$$.metas`)
+		sel := g.pick(`$$.one`, `$$.nest`, `$$.items`, `$$.items[0]`, `$v`, `$$.e`, `$$.metas`, `$$.rec`, `$$.rec.In`, `$$.recs`, `$$.groups`)
 		pat := sel
 		switch g.R.Intn(10) {
 		case 0:
